@@ -1,6 +1,7 @@
 package main
 
 import (
+	"encoding/json"
 	"fmt"
 	"math"
 	"os"
@@ -9,8 +10,10 @@ import (
 	"runtime"
 	"runtime/metrics"
 	"sort"
+	"strconv"
 	"strings"
 	"sync"
+	"syscall"
 	"time"
 
 	"github.com/prometheus/client_golang/prometheus"
@@ -32,7 +35,13 @@ import (
 //   collectors pedantic registration + concurrent gathering of the real Go and process collectors
 //              (no model: violations are direct failures)
 
-func main() { cli.Main("C18", runC18) }
+func main() {
+	if os.Getenv("VERIF_C18_UNPRIV_HELPER") != "" {
+		unprivHelper()
+		return
+	}
+	cli.Main("C18", runC18)
+}
 
 var unitNames = []string{"bytes", "seconds", "objects"}
 
@@ -1211,6 +1220,19 @@ func streamCollectors(c *cli.Ctx, r *emit.Rng) error {
 		}
 		w.Add(emit.Tup(emit.I(2), emit.S(what), emit.I(i)), inc == "", "collector:process", tag)
 	}
+	// process collector running unprivileged and watching a foreign process: one Desc-bound reading fails
+	{
+		fails, inc := unprivCase()
+		for _, f := range fails {
+			fail(n+np+nz, "process collector [unprivileged, foreign pid]: "+f)
+		}
+		tag := "partial-failure:conclusive"
+		if inc != "" {
+			tag = "partial-failure:inconclusive:" + inc
+			inconcl[inc]++
+		}
+		w.Add(emit.Tup(emit.I(3), emit.S("unprivileged-foreign-pid")), inc == "", "collector:process", tag)
+	}
 	if len(inconcl) > 0 {
 		w.Extra["inconclusive"] = inconcl
 	}
@@ -1309,6 +1331,146 @@ func zombieCase(opts collectors.ProcessCollectorOpts) (fails []string, inconclus
 		prev = sn
 	}
 	return fails, inconclusive
+}
+
+// ---- partial failure of ONE reading (a Desc-bound error) -------------------------------------------------
+// The driver re-executes itself as a helper that drops to an unprivileged uid and watches the (root-owned)
+// zombie child of the driver through PidFn: /proc/<pid>/stat and limits stay readable, listing /proc/<pid>/fd
+// fails with EACCES (and net/netstat is gone, an error without Desc), i.e. of the Desc-bound readings only open-fds fails. The helper reports what it saw as JSON on stdout; the driver's
+// own credentials never change.
+type unprivReport struct {
+	Inconclusive string   `json:"inconclusive"`
+	Fails        []string `json:"fails"`
+}
+
+func unprivHelper() {
+	rep := unprivReport{}
+	defer func() {
+		b, _ := json.Marshal(rep)
+		os.Stdout.Write(b)
+	}()
+	target, err := strconv.Atoi(os.Getenv("VERIF_C18_UNPRIV_HELPER"))
+	if err != nil {
+		rep.Inconclusive = "bad-target-pid"
+		return
+	}
+	if os.Getuid() != 0 {
+		rep.Inconclusive = "driver-not-root"
+		return
+	}
+	if err := syscall.Setgroups(nil); err != nil {
+		rep.Inconclusive = "setgroups-failed"
+		return
+	}
+	if err := syscall.Setgid(65534); err != nil {
+		rep.Inconclusive = "setgid-failed"
+		return
+	}
+	if err := syscall.Setuid(65534); err != nil {
+		rep.Inconclusive = "setuid-failed"
+		return
+	}
+	if _, err := os.ReadDir(fmt.Sprintf("/proc/%d/fd", target)); err == nil {
+		rep.Inconclusive = "fd-directory-of-a-foreign-process-readable"
+		return
+	}
+	if _, err := os.ReadFile(fmt.Sprintf("/proc/%d/stat", target)); err != nil {
+		rep.Inconclusive = "stat-of-a-foreign-process-unreadable"
+		return
+	}
+	pidFn := func() (int, error) { return target, nil }
+	for _, ns := range []string{"", "verif"} {
+		pfx := "process_"
+		if ns != "" {
+			pfx = ns + "_process_"
+		}
+		col := collectors.NewProcessCollector(collectors.ProcessCollectorOpts{PidFn: pidFn, Namespace: ns})
+		reg := prometheus.NewPedanticRegistry()
+		if err := reg.Register(col); err != nil {
+			rep.Fails = append(rep.Fails, "Register on a pedantic registry failed: "+err.Error())
+			continue
+		}
+		for i := 1; i <= 2; i++ {
+			if p := collectRecovered(col); p != "" {
+				rep.Fails = append(rep.Fails, p)
+				break
+			}
+			mfs, err := reg.Gather()
+			if err != nil {
+				rep.Fails = append(rep.Fails, fmt.Sprintf("ReportErrors=false, only the open-fds reading fails (EACCES): Gather #%d failed instead of leaving the metric out: %v", i, err))
+				break
+			}
+			names := map[string]bool{}
+			for _, mf := range mfs {
+				names[mf.GetName()] = true
+			}
+			if names[pfx+"open_fds"] {
+				rep.Inconclusive = "open-fds-reading-did-not-fail"
+			}
+			for _, n := range []string{"cpu_seconds_total", "max_fds", "virtual_memory_bytes"} {
+				if !names[pfx+n] {
+					rep.Fails = append(rep.Fails, fmt.Sprintf("ReportErrors=false: %s%s missing although its reading succeeds", pfx, n))
+				}
+			}
+		}
+	}
+	reg2 := prometheus.NewPedanticRegistry()
+	if err := reg2.Register(collectors.NewProcessCollector(collectors.ProcessCollectorOpts{PidFn: pidFn, ReportErrors: true})); err != nil {
+		rep.Fails = append(rep.Fails, "ReportErrors=true: Register failed: "+err.Error())
+	} else if _, err := reg2.Gather(); err == nil && rep.Inconclusive == "" {
+		rep.Fails = append(rep.Fails, "ReportErrors=true: the failed open-fds reading was not reported by Gather")
+	}
+}
+
+func unprivCase() (fails []string, inconclusive string) {
+	if os.Getuid() != 0 {
+		return nil, "driver-not-root"
+	}
+	exe, err := os.Executable()
+	if err != nil {
+		return nil, "no-executable-path"
+	}
+	// a root-owned zombie: stat and limits stay world-readable, the fd directory is empty for stat (so the
+	// fast path of procfs does not apply) and may not be listed by another user
+	sleep, err := exec.LookPath("sleep")
+	if err != nil {
+		return nil, "no-sleep-binary"
+	}
+	child := exec.Command(sleep, "60")
+	if err := child.Start(); err != nil {
+		return nil, "cannot-start-child"
+	}
+	defer child.Wait()
+	child.Process.Kill()
+	deadline := time.Now().Add(5 * time.Second)
+	for procState(child.Process.Pid) != "Z" {
+		if time.Now().After(deadline) {
+			return nil, "child-did-not-become-a-zombie"
+		}
+		time.Sleep(2 * time.Millisecond)
+	}
+	cmd := exec.Command(exe)
+	cmd.Env = append(os.Environ(), fmt.Sprintf("VERIF_C18_UNPRIV_HELPER=%d", child.Process.Pid))
+	done := make(chan struct{})
+	var out []byte
+	go func() { out, err = cmd.Output(); close(done) }()
+	select {
+	case <-done:
+	case <-time.After(60 * time.Second):
+		if cmd.Process != nil {
+			cmd.Process.Kill()
+		}
+		<-done
+		return []string{"unprivileged helper did not finish within 60 s (Gather hangs?)"}, ""
+	}
+	var rep unprivReport
+	if jerr := json.Unmarshal(out, &rep); jerr != nil {
+		if err != nil {
+			return []string{fmt.Sprintf("unprivileged helper died: %v (a panic inside Gather?) output=%q", err, string(out))}, ""
+		}
+		return nil, "helper-output-unreadable"
+	}
+	return rep.Fails, rep.Inconclusive
 }
 
 func pedanticComplaint(s string) bool {
